@@ -29,6 +29,11 @@ impl Cfg {
     pub fn get_u64(&self, k: &str, default: u64) -> u64 {
         self.get(k).and_then(|s| s.parse().ok()).unwrap_or(default)
     }
+    /// sharding: does case/program number `i` belong to this process?
+    pub fn mine(&self, i: u64) -> bool {
+        let of = self.get_u64("of", 1).max(1);
+        i % of == self.get_u64("shard", 0)
+    }
     pub fn corpus_dir(&self) -> String {
         format!("{}/conformance-tests/inkfiles", self.repo_dir)
     }
@@ -137,9 +142,26 @@ pub struct Report {
     pub floor: u64,
     pub replay_seq: u64,
     pub harness_errors: Vec<String>,
+    pub journal: Option<std::fs::File>,
 }
 
 impl Report {
+    /// crash journal: the case about to be executed (flushed before it runs, so that a worker that
+    /// aborts or overflows its stack can be attributed to its last started case)
+    pub fn journal_start(&mut self, case: &str) {
+        use std::io::Write;
+        if let Some(f) = self.journal.as_mut() {
+            let _ = writeln!(f, "START {case}");
+            let _ = f.flush();
+        }
+    }
+    pub fn journal_end(&mut self, case: &str) {
+        use std::io::Write;
+        if let Some(f) = self.journal.as_mut() {
+            let _ = writeln!(f, "END {case}");
+            let _ = f.flush();
+        }
+    }
     pub fn new(cfg: &Cfg, level: &str, rule: &str, floor: u64) -> Report {
         Report {
             cfg: cfg.clone(),
@@ -160,6 +182,7 @@ impl Report {
             floor,
             replay_seq: 0,
             harness_errors: Vec::new(),
+            journal: cfg.get("journal").and_then(|p| std::fs::File::create(p).ok()),
         }
     }
     pub fn count(&mut self, key: &str) {
@@ -202,9 +225,13 @@ impl Report {
         self.replay_seq += 1;
         let dir = format!("{}/replays", self.cfg.verif_dir);
         let _ = std::fs::create_dir_all(&dir);
+        let shard = match self.cfg.get("shard") {
+            Some(k) => format!("k{k}-"),
+            None => String::new(),
+        };
         let path = format!(
-            "{}/{}-{}-s{}-{}.json",
-            dir, prop, self.cfg.tier, self.cfg.seed, self.replay_seq
+            "{}/{}-{}-s{}-{}{}.json",
+            dir, prop, self.cfg.tier, self.cfg.seed, shard, self.replay_seq
         );
         let doc = json!({"property": prop, "signature": signature, "tier": self.cfg.tier, "seed": self.cfg.seed, "witness": witness});
         let _ = std::fs::write(&path, serde_json::to_string_pretty(&doc).unwrap());
@@ -227,6 +254,7 @@ impl Report {
         if let Some(e) = self.exhaustive {
             cov.insert("exhaustive".into(), json!(e));
         }
+        cov.insert("observation_floor".into(), json!(self.floor));
         cov.insert("observed".into(), json!(self.hist));
         cov.insert("inconclusive".into(), json!(self.inconclusive));
         cov.insert("known_findings_matched".into(), json!(self.known_hit));
@@ -287,7 +315,7 @@ impl Report {
             );
             return 2;
         }
-        if distinct < self.floor {
+        if distinct < self.floor && self.cfg.get("of").is_none() {
             println!(
                 "INCONCLUSIVE property={} observed only {} distinct non-trivial cases (floor {})",
                 self.cfg.prop, distinct, self.floor
@@ -323,5 +351,63 @@ pub fn truncate(s: &str, n: usize) -> String {
             end -= 1;
         }
         format!("{}…(+{} bytes)", &s[..end], s.len() - end)
+    }
+}
+
+thread_local! {
+    static LAST_PANIC: std::cell::RefCell<Option<(String, String)>> = const { std::cell::RefCell::new(None) };
+}
+
+/// Records (location, message) of every panic instead of printing a backtrace.
+pub fn install_panic_hook() {
+    std::panic::set_hook(Box::new(|info| {
+        let loc = info.location().map(|l| format!("{}:{}", l.file(), l.line())).unwrap_or_default();
+        let msg = info
+            .payload()
+            .downcast_ref::<String>()
+            .cloned()
+            .or_else(|| info.payload().downcast_ref::<&str>().map(|s| s.to_string()))
+            .unwrap_or_default();
+        LAST_PANIC.with(|p| *p.borrow_mut() = Some((loc, msg)));
+    }));
+}
+
+/// (location, message) of the most recent panic on this thread.
+pub fn take_last_panic() -> Option<(String, String)> {
+    LAST_PANIC.with(|p| p.borrow_mut().take())
+}
+
+/// true when the panic location is inside the repository under test (not in the harness / std)
+pub fn panic_in_repo(loc: &str, repo_dir: &str) -> bool {
+    loc.starts_with(repo_dir) || loc.starts_with("runtime/") || loc.starts_with("compiler/") || loc.starts_with("rinklecate/")
+}
+
+/// function-level identity of a panic site: file without line + normalised message
+pub fn panic_signature(loc: &str, msg: &str, repo_dir: &str) -> String {
+    let file = loc.rsplit_once(':').map(|x| x.0).unwrap_or(loc);
+    let file = file.strip_prefix(repo_dir).unwrap_or(file).trim_start_matches('/');
+    let mut m: String = msg.chars().map(|c| if c.is_ascii_digit() { '#' } else { c }).collect();
+    while m.contains("##") {
+        m = m.replace("##", "#");
+    }
+    format!("panic@{}#{}", file, truncate(&m, 70))
+}
+
+impl Report {
+    /// A caught panic: a violation if it happened inside the repository's code, a harness error otherwise.
+    pub fn panic_caught(&mut self, prefix: &str, mut witness: Value) -> bool {
+        let (loc, msg) = take_last_panic().unwrap_or_default();
+        let repo = self.cfg.repo_dir.clone();
+        if let Some(o) = witness.as_object_mut() {
+            o.insert("panic_location".into(), json!(loc));
+            o.insert("panic_message".into(), json!(msg));
+        }
+        if panic_in_repo(&loc, &repo) {
+            let sig = format!("{prefix}/{}", panic_signature(&loc, &msg, &repo));
+            self.violation(&sig, witness)
+        } else {
+            self.harness_error(&format!("harness panic at {loc}: {msg}"));
+            false
+        }
     }
 }
